@@ -2,33 +2,510 @@
    Props/Properties_C12.v re-exports them with `exact`. *)
 From QV Require Import Base.Bytes Struct.NumRange Struct.RangeSpec Struct.PageOps.
 From Coq Require Import Lia.
+(* needed so that the qualified name Permutation.Permutation in collate_perm_lemma resolves *)
+From Coq Require Permutation.
 
-(* TODO-PROVE *)
+(* ---------- page ranges: parse_numrange refines range_spec ---------- *)
+
+Fixpoint nr_run (gps : list (group * list Z)) (rr lg : list Z) : list Z :=
+  match gps with
+  | [] => rev rr ++ lg
+  | (g, p) :: t => if g_excl g then nr_run t rr (filter (fun n => negb (zmem n p)) lg)
+                   else nr_run t (rev_append lg rr) p
+  end.
+
+Definition nr_step (max : Z) (g : list N) (first : bool) : option (group * list Z) :=
+  match group_of g with
+  | None => None
+  | Some gr => if first && g_excl gr then None else
+               match den_group max gr with None => None | Some w => Some (gr, w) end
+  end.
+
+Lemma nr_final : forall rr lg : list Z, rev' (rev_append lg rr) = rev rr ++ lg.
+Proof.
+  intros rr lg. rewrite rev'_rev, rev_append_rev, rev_app_distr, rev_involutive. reflexivity.
+Qed.
+
+Lemma loop_step : forall f max body pos first rr lg, body <> [] ->
+  nr_ok (groups_loop (S f) max body pos first rr lg) =
+  match nr_step max (fst (split_first 44%N body)) first with
+  | None => None
+  | Some (gr, w) =>
+      let rr' := if g_excl gr then rr else rev_append lg rr in
+      let lg' := if g_excl gr then filter (fun n => negb (zmem n w)) lg else w in
+      match snd (split_first 44%N body) with
+      | None => Some (rev rr' ++ lg')
+      | Some [] => None
+      | Some rest =>
+          nr_ok (groups_loop f max rest (pos + lenN (fst (split_first 44%N body)) + 1)%N
+                             false rr' lg')
+      end
+  end.
+Proof.
+  intros f max body pos first rr lg Hne.
+  destruct body as [|x body]; [contradiction|].
+  cbn [groups_loop].
+  destruct (split_first 44%N (x :: body)) as [g after].
+  cbn [fst snd]. unfold nr_step, group_of.
+  destruct (match_group g) as [[[ex n1] on2]|]; [|reflexivity].
+  cbn [g_excl].
+  destruct (first && ex); [reflexivity|].
+  unfold den_group. cbn [g_first g_last].
+  destruct (eval_num max n1) as [a|]; [|reflexivity].
+  destruct on2 as [n2|].
+  - destruct (eval_num max n2) as [b|]; [|reflexivity].
+    destruct ex; cbn [g_excl]; cbv zeta; destruct after as [[|y rest]|];
+      try reflexivity; cbn [nr_ok]; rewrite nr_final; reflexivity.
+  - destruct ex; cbn [g_excl]; cbv zeta; destruct after as [[|y rest]|];
+      try reflexivity; cbn [nr_ok]; rewrite nr_final; reflexivity.
+Qed.
+
+Lemma split_first_on : forall c s,
+  split_on c s = match split_first c s with
+                 | (g, None) => [g]
+                 | (g, Some rest) => g :: split_on c rest
+                 end.
+Proof.
+  intros c. induction s as [|x t IH].
+  - reflexivity.
+  - cbn [split_on split_first]. destruct (N.eqb x c); [reflexivity|].
+    rewrite IH. destruct (split_first c t) as [a [r|]]; reflexivity.
+Qed.
+
+Lemma split_first_length : forall c s g rest,
+  split_first c s = (g, Some rest) -> (length rest < length s)%nat.
+Proof.
+  intros c. induction s as [|x t IH]; intros g rest H.
+  - discriminate.
+  - cbn [split_first] in H. destruct (N.eqb x c).
+    + injection H as _ <-. cbn [length]. lia.
+    + destruct (split_first c t) as [a [r|]] eqn:E; [|discriminate].
+      injection H as _ <-. specialize (IH a r eq_refl). cbn [length]. lia.
+Qed.
+
+Lemma loop_run : forall max fuel body pos first rr lg, body <> [] -> (length body < fuel)%nat ->
+  nr_ok (groups_loop fuel max body pos first rr lg) =
+  match all_some (map group_of (split_on 44%N body)) with
+  | None => None
+  | Some gs =>
+      if first && match gs with g :: _ => g_excl g | [] => false end then None else
+      match all_some (map (den_group max) gs) with
+      | None => None
+      | Some pages => Some (nr_run (combine gs pages) rr lg)
+      end
+  end.
+Proof.
+  intros max. induction fuel as [|f IH]; intros body pos first rr lg Hne Hlen; [lia|].
+  rewrite loop_step by assumption.
+  rewrite (split_first_on 44%N body).
+  destruct (split_first 44%N body) as [g after] eqn:Esf.
+  cbn [fst snd]. unfold nr_step.
+  destruct after as [rest|].
+  - cbn [map all_some].
+    destruct (group_of g) as [gr|]; [|reflexivity].
+    destruct rest as [|y rest'].
+    + (* trailing comma *)
+      cbn [split_on map]. change (group_of []) with (@None group). cbn [all_some].
+      destruct (first && g_excl gr); [reflexivity|].
+      destruct (den_group max gr); reflexivity.
+    + pose proof (split_first_length _ _ _ _ Esf) as Hl.
+      destruct (first && g_excl gr) eqn:Efx.
+      * destruct (all_some (map group_of (split_on 44%N (y :: rest')))); [|reflexivity].
+        rewrite Efx. reflexivity.
+      * destruct (den_group max gr) as [w|] eqn:Eden.
+        -- cbv zeta. rewrite IH by (try discriminate; lia).
+           destruct (all_some (map group_of (split_on 44%N (y :: rest')))) as [gs'|];
+             [|reflexivity].
+           rewrite Efx. cbn [andb map all_some]. rewrite Eden.
+           destruct (all_some (map (den_group max) gs')) as [pages'|]; [|reflexivity].
+           cbn [combine nr_run]. destruct (g_excl gr); reflexivity.
+        -- destruct (all_some (map group_of (split_on 44%N (y :: rest')))) as [gs'|];
+             [|reflexivity].
+           rewrite Efx. cbn [map all_some]. rewrite Eden. reflexivity.
+  - cbn [map all_some].
+    destruct (group_of g) as [gr|]; [|reflexivity].
+    destruct (first && g_excl gr); [reflexivity|].
+    cbn [map all_some].
+    destruct (den_group max gr) as [w|]; [|reflexivity].
+    cbv zeta. cbn [combine nr_run]. destruct (g_excl gr); reflexivity.
+Qed.
+
+Lemma filter_excl_cons : forall (p : list Z) (pend : list (list Z)) (lg : list Z),
+  filter (fun n => negb (existsb (zmem n) pend)) (filter (fun n => negb (zmem n p)) lg)
+  = filter (fun n => negb (existsb (zmem n) (p :: pend))) lg.
+Proof.
+  intros p pend. induction lg as [|x lg IH].
+  - reflexivity.
+  - cbn [filter existsb]. destruct (zmem x p); cbn [negb orb].
+    + exact IH.
+    + cbn [filter]. destruct (existsb (zmem x) pend); cbn [negb]; rewrite IH; reflexivity.
+Qed.
+
+Lemma filter_excl_nil : forall lg : list Z,
+  filter (fun n => negb (existsb (zmem n) [])) lg = lg.
+Proof.
+  induction lg as [|x lg IH]; [reflexivity|]. cbn [filter existsb negb]. f_equal. exact IH.
+Qed.
+
+Lemma nr_run_den : forall gps rr lg,
+  nr_run gps rr lg =
+  rev rr ++ filter (fun n => negb (existsb (zmem n) (snd (fold_right den_step ([], []) gps)))) lg
+         ++ fst (fold_right den_step ([], []) gps).
+Proof.
+  induction gps as [|[g p] t IH]; intros rr lg.
+  - cbn [nr_run fold_right fst snd]. rewrite filter_excl_nil, app_nil_r. reflexivity.
+  - cbn [nr_run fold_right]. unfold den_step at 1 3.
+    destruct (fold_right den_step ([], []) t) as [res pend] eqn:EF.
+    cbn [fst snd] in IH.
+    destruct (g_excl g).
+    + rewrite IH. cbn [fst snd]. rewrite filter_excl_cons. reflexivity.
+    + rewrite IH. cbn [fst snd]. rewrite filter_excl_nil.
+      rewrite rev_append_rev, rev_app_distr, rev_involutive, <- app_assoc. reflexivity.
+Qed.
+
+Lemma every_other_positional : forall (even : bool) (l : list Z) (k : nat),
+  every_other (Bool.eqb (Nat.odd k) even) l
+  = map snd (filter (fun ip => Bool.eqb (Nat.odd (fst ip)) even) (combine (seq k (length l)) l)).
+Proof.
+  intros even. induction l as [|x l IH]; intros k.
+  - reflexivity.
+  - cbn [every_other length seq combine filter fst].
+    assert (Hs : Nat.odd (S k) = negb (Nat.odd k)).
+    { rewrite Nat.odd_succ. rewrite <- Nat.negb_odd. reflexivity. }
+    destruct (Bool.eqb (Nat.odd k) even) eqn:E.
+    + cbn [map snd]. f_equal. rewrite <- IH. rewrite Hs.
+      destruct (Nat.odd k), even; try discriminate; reflexivity.
+    + rewrite <- IH. rewrite Hs.
+      destruct (Nat.odd k), even; try discriminate; reflexivity.
+Qed.
+
+Definition den_core (max : Z) (gs : list group) : option (list Z) :=
+  match gs with
+  | g :: _ => if g_excl g then None else
+      match all_some (map (den_group max) gs) with
+      | None => None
+      | Some pages => Some (den_groups (combine gs pages))
+      end
+  | [] => Some []
+  end.
+
+Lemma den_den_core : forall max gs par,
+  den max {| r_groups := gs; r_parity := par |} =
+  match den_core max gs with
+  | None => None
+  | Some l => Some (match par with None => l | Some e => positional e l end)
+  end.
+Proof.
+  intros max gs par. unfold den, den_core. cbn [r_groups r_parity].
+  destruct gs as [|g gs]; [destruct par; reflexivity|].
+  destruct (g_excl g); [reflexivity|].
+  destruct (all_some (map (den_group max) (g :: gs))); reflexivity.
+Qed.
+
+Lemma body_run : forall max body, body <> [] ->
+  nr_ok (groups_loop (S (length body)) max body 0%N true [] []) =
+  match all_some (map group_of (split_on 44%N body)) with
+  | None => None
+  | Some gs => den_core max gs
+  end.
+Proof.
+  intros max body Hne. rewrite loop_run by (try assumption; lia).
+  destruct (all_some (map group_of (split_on 44%N body))) as [gs|]; [|reflexivity].
+  unfold den_core. destruct gs as [|g gs]; [reflexivity|].
+  cbn [andb]. destruct (g_excl g) eqn:Eg; [reflexivity|].
+  destruct (all_some (map (den_group max) (g :: gs))) as [pages|]; [|reflexivity].
+  rewrite nr_run_den. cbn [rev filter app]. reflexivity.
+Qed.
+
+Lemma nr_ok_map : forall (r : nr_result) (f : list Z -> list Z),
+  nr_ok (match r with NrOk l => NrOk (f l) | e => e end)
+  = match nr_ok r with Some l => Some (f l) | None => None end.
+Proof. intros [l|k p] f; reflexivity. Qed.
+
 Lemma numrange_spec_lemma : forall s max, nr_ok (parse_numrange s max) = range_spec s max.
-Proof. Abort.
+Proof.
+  intros s max. unfold parse_numrange, range_spec, parse_syntax.
+  destruct (split_first 58%N s) as [body suffix].
+  assert (Hrun : forall par,
+    match (match body with
+           | [] => Some {| r_groups := []; r_parity := par |}
+           | _ :: _ => match all_some (map group_of (split_on 44%N body)) with
+                       | Some gs => Some {| r_groups := gs; r_parity := par |}
+                       | None => None
+                       end
+           end) with
+    | None => None
+    | Some r => den max r
+    end =
+    match nr_ok (groups_loop (S (length body)) max body 0%N true [] []) with
+    | None => None
+    | Some l => Some (match par with None => l | Some e => positional e l end)
+    end).
+  { intros par. destruct body as [|x body].
+    - cbn. destruct par; reflexivity.
+    - rewrite body_run by discriminate.
+      destruct (all_some (map group_of (split_on 44%N (x :: body)))) as [gs|]; [|reflexivity].
+      apply den_den_core. }
+  destruct suffix as [suf|].
+  - destruct (list_eqb N.eqb suf s_odd).
+    + rewrite Hrun. rewrite nr_ok_map.
+      destruct (nr_ok (groups_loop (S (length body)) max body 0%N true [] [])) as [l|];
+        [|reflexivity].
+      f_equal. unfold positional. apply (every_other_positional false l 0).
+    + destruct (list_eqb N.eqb suf s_even).
+      * rewrite Hrun. rewrite nr_ok_map.
+        destruct (nr_ok (groups_loop (S (length body)) max body 0%N true [] [])) as [l|];
+          [|reflexivity].
+        f_equal. unfold positional. apply (every_other_positional true l 0).
+      * reflexivity.
+  - rewrite Hrun.
+    destruct (nr_ok (groups_loop (S (length body)) max body 0%N true [] [])); reflexivity.
+Qed.
+
+(* ---------- collation ---------- *)
+
+Lemma skipn_skipn' : forall (A : Type) (n m : nat) (l : list A),
+  skipn n (skipn m l) = skipn (m + n) l.
+Proof.
+  intros A n m. induction m as [|m IH]; intros l.
+  - reflexivity.
+  - destruct l as [|x l].
+    + rewrite !skipn_nil. reflexivity.
+    + cbn [skipn Nat.add]. apply IH.
+Qed.
+
+Lemma sweep_round : forall (A : Type) (r : nat) (sels : list (list A)) (cs : list nat),
+  length cs = length sels ->
+  exists got,
+    collate_sweep sels cs (map (fun c => r * c)%nat cs)
+    = (round_blocks r sels cs, got, map (fun c => S r * c)%nat cs)
+    /\ (got = false -> round_blocks r sels cs = []).
+Proof.
+  intros A r. induction sels as [|sel sels IH]; intros cs Hlen.
+  - destruct cs as [|c cs]; [|discriminate]. exists false. split; reflexivity.
+  - destruct cs as [|c cs]; [discriminate|].
+    cbn [length] in Hlen. injection Hlen as Hlen.
+    destruct (IH cs Hlen) as [got [E Hg]].
+    cbn [collate_sweep map round_blocks]. rewrite E.
+    eexists. split.
+    + unfold block. f_equal. f_equal. lia.
+    + intros Hf. apply orb_false_iff in Hf. destruct Hf as [Hf1 Hf2].
+      rewrite (Hg Hf2). unfold block.
+      destruct (firstn c (skipn (r * c) sel)); [reflexivity|discriminate].
+Qed.
+
+Lemma block_empty_succ : forall (A : Type) (r c : nat) (sel : list A), (0 < c)%nat ->
+  block r c sel = [] -> block (S r) c sel = [].
+Proof.
+  intros A r c sel Hc H. unfold block in *.
+  assert (Hs : skipn (r * c) sel = []).
+  { destruct c as [|c]; [lia|]. destruct (skipn (r * S c) sel); [reflexivity|discriminate]. }
+  assert (Hl : (length sel <= r * c)%nat).
+  { pose proof (skipn_length (r * c) sel) as HL. rewrite Hs in HL. cbn [length] in HL. lia. }
+  rewrite skipn_all2 by lia. apply firstn_nil.
+Qed.
+
+Lemma round_empty_succ : forall (A : Type) (r : nat) (sels : list (list A)) (cs : list nat),
+  Forall (fun c => 0 < c)%nat cs ->
+  round_blocks r sels cs = [] -> round_blocks (S r) sels cs = [].
+Proof.
+  intros A r. induction sels as [|sel sels IH]; intros cs Hpos H.
+  - reflexivity.
+  - destruct cs as [|c cs]; [reflexivity|].
+    cbn [round_blocks] in *. apply app_eq_nil in H. destruct H as [H1 H2].
+    inversion Hpos as [|c' cs' Hc Hcs]; subst.
+    rewrite (block_empty_succ _ _ _ _ Hc H1). rewrite (IH cs Hcs H2). reflexivity.
+Qed.
+
+Lemma round_empty_later : forall (A : Type) (sels : list (list A)) (cs : list nat),
+  Forall (fun c => 0 < c)%nat cs -> forall r r', (r <= r')%nat ->
+  round_blocks r sels cs = [] -> round_blocks r' sels cs = [].
+Proof.
+  intros A sels cs Hpos r r' Hle H. induction Hle as [|r' Hle IH].
+  - exact H.
+  - apply round_empty_succ; assumption.
+Qed.
+
+Lemma rounds_empty_concat : forall (A : Type) (sels : list (list A)) (cs : list nat),
+  Forall (fun c => 0 < c)%nat cs -> forall r, round_blocks r sels cs = [] ->
+  forall f r', (r <= r')%nat ->
+  concat (map (fun r => round_blocks r sels cs) (seq r' f)) = [].
+Proof.
+  intros A sels cs Hpos r H. induction f as [|f IH]; intros r' Hle.
+  - reflexivity.
+  - cbn [seq map concat]. rewrite (round_empty_later _ sels cs Hpos r r' Hle H).
+    rewrite IH by lia. reflexivity.
+Qed.
+
+Lemma collate_loop_rounds : forall (A : Type) (sels : list (list A)) (cs : list nat),
+  length cs = length sels -> Forall (fun c => 0 < c)%nat cs ->
+  forall fuel r,
+  collate_loop fuel sels cs (map (fun c => r * c)%nat cs)
+  = concat (map (fun r => round_blocks r sels cs) (seq r fuel)).
+Proof.
+  intros A sels cs Hlen Hpos. induction fuel as [|f IH]; intros r.
+  - reflexivity.
+  - cbn [collate_loop].
+    destruct (sweep_round A r sels cs Hlen) as [got [E Hg]]. rewrite E.
+    destruct got.
+    + rewrite IH. reflexivity.
+    + symmetry. apply (rounds_empty_concat _ sels cs Hpos r (Hg eq_refl)). lia.
+Qed.
 
 Lemma collate_refines_lemma : forall (A : Type) (sels : list (list A)) (cs : list nat),
   length cs = length sels -> Forall (fun c => 0 < c)%nat cs ->
   collate sels cs = collate_spec sels cs.
-Proof. Abort.
+Proof.
+  intros A sels cs Hlen Hpos. unfold collate, collate_spec.
+  replace (map (fun _ : list A => 0%nat) sels) with (map (fun c => 0 * c)%nat cs).
+  - apply collate_loop_rounds; assumption.
+  - clear Hpos. revert cs Hlen. induction sels as [|sel sels IH]; intros cs Hlen.
+    + destruct cs; [reflexivity|discriminate].
+    + destruct cs as [|c cs]; [discriminate|]. cbn [map]. f_equal.
+      apply IH. cbn [length] in Hlen. lia.
+Qed.
 
-(* every selected page appears exactly as often as it was selected: collation is a permutation *)
+Lemma firstn_add' : forall (A : Type) (c m : nat) (l : list A),
+  firstn c l ++ firstn m (skipn c l) = firstn (c + m) l.
+Proof.
+  intros A c m. induction c as [|c IH]; intros l.
+  - reflexivity.
+  - destruct l as [|x l].
+    + cbn [skipn firstn Nat.add app]. rewrite firstn_nil. reflexivity.
+    + cbn [skipn firstn Nat.add app]. rewrite IH. reflexivity.
+Qed.
+
+Lemma blocks_concat : forall (A : Type) (c : nat) (sel : list A) (N a : nat),
+  concat (map (fun r => block r c sel) (seq a N)) = firstn (N * c) (skipn (a * c) sel).
+Proof.
+  intros A c sel. induction N as [|N IH]; intros a.
+  - reflexivity.
+  - cbn [seq map concat]. rewrite IH. unfold block.
+    replace (S a * c)%nat with (a * c + c)%nat by lia.
+    rewrite <- skipn_skipn'. rewrite firstn_add'. f_equal.
+Qed.
+
+Lemma concat_map_app_perm : forall (A : Type) (f g : nat -> list A) (l : list nat),
+  Permutation.Permutation (concat (map (fun r => f r ++ g r) l))
+                          (concat (map f l) ++ concat (map g l)).
+Proof.
+  intros A f g. induction l as [|x l IH].
+  - constructor.
+  - cbn [map concat]. rewrite <- !app_assoc. apply Permutation.Permutation_app_head.
+    eapply Permutation.Permutation_trans.
+    + apply Permutation.Permutation_app_head. exact IH.
+    + rewrite !app_assoc. apply Permutation.Permutation_app_tail.
+      apply Permutation.Permutation_app_comm.
+Qed.
+
+Lemma rounds_perm : forall (A : Type) (sels : list (list A)) (cs : list nat) (N : nat),
+  length cs = length sels -> Forall (fun c => 0 < c)%nat cs -> (total_len sels <= N)%nat ->
+  Permutation.Permutation (concat (map (fun r => round_blocks r sels cs) (seq 0 N)))
+                          (concat sels).
+Proof.
+  intros A. induction sels as [|sel sels IH]; intros cs N Hlen Hpos HN.
+  - cbn [round_blocks concat].
+    replace (concat (map (fun _ : nat => @nil A) (seq 0 N))) with (@nil A); [constructor|].
+    generalize (seq 0 N). intros l. induction l as [|x l IHl]; [reflexivity|exact IHl].
+  - destruct cs as [|c cs]; [discriminate|].
+    cbn [length] in Hlen. injection Hlen as Hlen.
+    inversion Hpos as [|c' cs' Hc Hcs]; subst.
+    cbn [total_len fold_right] in HN. fold (total_len sels) in HN.
+    cbn [round_blocks concat].
+    eapply Permutation.Permutation_trans.
+    + apply (concat_map_app_perm A (fun r => block r c sel) (fun r => round_blocks r sels cs)).
+    + rewrite blocks_concat. cbn [Nat.mul skipn].
+      rewrite firstn_all2 by nia.
+      apply Permutation.Permutation_app_head. apply IH; try assumption. lia.
+Qed.
+
 Lemma collate_perm_lemma : forall (A : Type) (sels : list (list A)) (cs : list nat),
   length cs = length sels -> Forall (fun c => 0 < c)%nat cs ->
   Permutation.Permutation (collate sels cs) (concat sels).
-Proof. Abort.
+Proof.
+  intros A sels cs Hlen Hpos. rewrite collate_refines_lemma by assumption.
+  unfold collate_spec. apply rounds_perm; try assumption. lia.
+Qed.
+
+(* ---------- split-pages ---------- *)
+
+Lemma split_chunks_concat : forall (A : Type) (ps : list A) (n : nat), (0 < n)%nat ->
+  forall fuel i, (length ps < fuel + i)%nat ->
+  concat (map (pages_of_chunk ps) (split_chunks_fuel fuel n i (length ps))) = skipn i ps.
+Proof.
+  intros A ps n Hn. induction fuel as [|f IH]; intros i Hf.
+  - cbn [split_chunks_fuel map concat]. symmetry. apply skipn_all2. lia.
+  - cbn [split_chunks_fuel].
+    destruct (Nat.ltb_spec i (length ps)) as [Hlt|Hge].
+    + cbn [map concat]. rewrite IH by lia.
+      unfold pages_of_chunk. cbn [fst snd].
+      replace (S i - 1)%nat with i by lia.
+      set (k := (Nat.min (i + n) (length ps) - i)%nat).
+      rewrite <- (firstn_skipn k (skipn i ps)) at 2.
+      f_equal. rewrite skipn_skipn'.
+      destruct (Nat.le_gt_cases (i + n) (length ps)) as [Hle|Hgt].
+      * f_equal. lia.
+      * rewrite !skipn_all2 by lia. reflexivity.
+    + cbn [map concat]. symmetry. apply skipn_all2. lia.
+Qed.
+
+Lemma split_chunks_sizes : forall (A : Type) (ps : list A) (n : nat), (0 < n)%nat ->
+  forall fuel i,
+  Forall (fun c => 0 < length c <= n)%nat
+         (map (pages_of_chunk ps) (split_chunks_fuel fuel n i (length ps))).
+Proof.
+  intros A ps n Hn. induction fuel as [|f IH]; intros i.
+  - constructor.
+  - cbn [split_chunks_fuel].
+    destruct (Nat.ltb_spec i (length ps)) as [Hlt|Hge].
+    + cbn [map]. constructor; [|apply IH].
+      unfold pages_of_chunk. cbn [fst snd].
+      rewrite firstn_length, skipn_length. lia.
+    + constructor.
+Qed.
 
 Lemma split_concat_lemma : forall (A : Type) (n : nat) (ps : list A), (0 < n)%nat ->
   concat (split_pages n ps) = ps
   /\ Forall (fun c => 0 < length c <= n)%nat (split_pages n ps).
-Proof. Abort.
+Proof.
+  intros A n ps Hn. unfold split_pages, split_chunks. split.
+  - rewrite split_chunks_concat by lia. reflexivity.
+  - apply split_chunks_sizes. exact Hn.
+Qed.
+
+(* ---------- rotation ---------- *)
+
+Lemma rem90_mod90 : forall x, (Z.rem x 90 =? 0)%Z = (x mod 90 =? 0)%Z.
+Proof.
+  intros x.
+  destruct (Z.eqb_spec (Z.rem x 90) 0) as [e|e], (Z.eqb_spec (x mod 90) 0) as [e'|e'];
+    try reflexivity; exfalso.
+  - apply Z.rem_divide in e; [|lia]. apply Z.mod_divide in e; [|lia]. contradiction.
+  - apply Z.mod_divide in e'; [|lia]. apply Z.rem_divide in e'; [|lia]. contradiction.
+Qed.
 
 Lemma rotate_mod360_lemma : forall old a rel r, (a mod 90 = 0)%Z ->
   rotate_angle old a rel = Some r ->
   let eff := if (old mod 90 =? 0)%Z then old else 0%Z in
   (r mod 360 = (if rel then eff + a else a) mod 360)%Z
   /\ ((-360 <= (if rel then eff + a else a))%Z -> (0 <= r < 360)%Z).
-Proof. Abort.
+Proof.
+  intros old a rel r Ha H eff.
+  unfold rotate_angle, c_rem in H. rewrite !rem90_mod90 in H. rewrite Ha in H.
+  change (0 =? 0)%Z with true in H. cbn [negb] in H.
+  fold eff in H.
+  set (new := if rel then (eff + a)%Z else a).
+  replace (if rel then (a + eff)%Z else a) with new in H by (unfold new; destruct rel; lia).
+  injection H as <-.
+  split.
+  - pose proof (Z.quot_rem' (new + 360) 360) as Hq.
+    replace (Z.rem (new + 360) 360) with (new + (1 - Z.quot (new + 360) 360) * 360)%Z by lia.
+    apply Z_mod_plus_full.
+  - intros Hlo. rewrite Z.rem_mod_nonneg by lia. apply Z.mod_pos_bound. lia.
+Qed.
 
 Lemma rotate_rejects_lemma : forall old a rel, (a mod 90 <> 0)%Z -> rotate_angle old a rel = None.
-Proof. Abort.
+Proof.
+  intros old a rel Ha. unfold rotate_angle, c_rem. rewrite rem90_mod90.
+  destruct (Z.eqb_spec (a mod 90) 0) as [e|e]; [contradiction|reflexivity].
+Qed.
